@@ -213,7 +213,7 @@ def main(args=None):
         print(utils.Report())
         return
 
-    elif len(sys.argv) == 1 and not os.path.isfile('emg3d.cfg'):
+    elif len(args) == 0 and not os.path.isfile('emg3d.cfg'):
 
         # If no arguments provided, and ./emg3d.cfg does not exist, print info.
         print(parser.description)
